@@ -299,5 +299,323 @@ theorem kruskal_ttvCore_spec [CommSemiring α] (K : Ktensor α) (pairs : List (N
       rw [this, ← hN, ← hrem]
       ring
 
+/-- **Kruskal `ttv` as called** with `dims` in any order and one vector per listed mode. -/
+theorem kruskal_ttv_dims [CommSemiring α] (K : Ktensor α) (d : List Nat) (vs : List (List α))
+    (hd : d.Nodup) (hN : ∀ x ∈ d, x < K.factors.length) (hl : vs.length = d.length)
+    (hsz : ∀ p ∈ d.zip vs, p.2.length = K.shape.getD p.1 0)
+    (w : Nat → Nat → α) (hw : ∀ p ∈ d.zip vs, ∀ k, w p.1 k = p.2.getD k 0) :
+    ∃ r, K.ttv vs (some (d.map Int.ofNat)) none = .ok r ∧ kresShape r = Spec.ttvShape K.shape d ∧
+      ∀ i, InBounds (kresShape r) i → kresGet r i = Spec.ttv K.den d w i := by
+  obtain ⟨pairs, e, hs, hp⟩ := resolve_dims_P K.factors.length vs d hd hN hl
+  obtain ⟨f1, f2, f3, f4⟩ := pairs_facts K.shape List.length d vs pairs hd
+    (by rw [kshape_length]; exact hN) hl hsz hs hp
+  obtain ⟨r, hr, hsh, _, hg⟩ := kruskal_ttvCore_spec K pairs f1 (by rw [← kshape_length]; exact f2) f3 w
+    (fun p hp' => hw p (hp.subset hp'))
+  refine ⟨r, by unfold Ktensor.ttv; rw [e]; exact hr, by rw [hsh, spec_ttvShape_perm _ f4], ?_⟩
+  intro i hi
+  rw [hg i hi, spec_ttv_perm _ f4]
+
+/-! ### inner product and norm -/
+
+/-- `Σ_k ∏ₙ Aₙ[kₙ,r] · ∏ₙ Bₙ[kₙ,q] = ∏ₙ (AₙᵀBₙ)[r,q]`. -/
+theorem sum_comp_mul [CommSemiring α] (K L : Ktensor α) (hs : K.shape = L.shape) (r q : Nat) :
+    ((allSubs K.shape).map fun k => K.comp r k * L.comp q k).sum =
+      ((List.range K.factors.length).map fun d => sumRange (K.factors.getD d []).length fun x =>
+        (K.factors.getD d []).get x r * (L.factors.getD d []).get x q).prod := by
+  have hL : L.factors.length = K.factors.length := by rw [← kshape_length, ← hs, kshape_length]
+  have := sum_allSubs_prod K.shape (fun d x => (K.factors.getD d []).get x r * (L.factors.getD d []).get x q)
+  rw [kshape_length] at this
+  rw [show ((List.range K.factors.length).map fun d => sumRange (K.factors.getD d []).length fun x =>
+        (K.factors.getD d []).get x r * (L.factors.getD d []).get x q) =
+      (List.range K.factors.length).map fun d => sumRange (K.shape.getD d 0) fun x =>
+        (K.factors.getD d []).get x r * (L.factors.getD d []).get x q from
+    List.map_congr_left (fun d _ => by rw [kshape_getD]), ← this]
+  apply sum_congr
+  intro k hk
+  have hkl : k.length = K.factors.length := by rw [(mem_allSubs.1 hk).length_eq, kshape_length]
+  rw [comp_eq_range K r k hkl, comp_eq_range L q k (by rw [hL]; exact hkl), hL, List.prod_map_mul]
+
+/-- What the inner product of two Kruskal tensors is specified to be, computed: the weighted sum
+of the Hadamard product of the Gram matrices. -/
+theorem spec_inner_kruskal [CommSemiring α] (K L : Ktensor α) (hs : K.shape = L.shape) :
+    Spec.inner K.den L.den = sumRange K.ncomp fun r => sumRange L.ncomp fun q =>
+      (K.weights.getD r 0 * L.weights.getD q 0) *
+        ((List.range K.factors.length).map fun d => sumRange (K.factors.getD d []).length fun x =>
+          (K.factors.getD d []).get x r * (L.factors.getD d []).get x q).prod := by
+  show ((allSubs K.shape).map fun k => K.get k * L.get k).sum = _
+  have hterm : ∀ k ∈ allSubs K.shape, K.get k * L.get k =
+      ((List.range K.ncomp).map fun r => ((List.range L.ncomp).map fun q =>
+        (K.weights.getD r 0 * L.weights.getD q 0) * (K.comp r k * L.comp q k)).sum).sum := by
+    intro k _
+    unfold Ktensor.get
+    rw [← List.sum_map_mul_right]
+    apply sum_congr
+    intro r _
+    rw [← List.sum_map_mul_left]
+    apply sum_congr
+    intro q _
+    ring
+  rw [List.map_congr_left hterm, sum_comm]
+  unfold sumRange
+  apply sum_congr
+  intro r _
+  rw [sum_comm]
+  apply sum_congr
+  intro q _
+  rw [List.sum_map_mul_left, sum_comp_mul K L hs]
+  rfl
+
+/-- **Kruskal · Kruskal inner product** (Hadamard product of the Gram matrices `AₙᵀBₙ`, weighted). -/
+theorem kruskal_innerprodK_spec [CommSemiring α] (K L : Ktensor α) (hs : K.shape = L.shape) :
+    K.innerprodK L = .ok (Spec.inner K.den L.den) := by
+  unfold Ktensor.innerprodK
+  have : (K.shape != L.shape) = false := by simp [hs]
+  rw [this]
+  simp only [Bool.false_eq_true, if_false]
+  rw [spec_inner_kruskal K L hs]
+  congr 1
+  apply sumRange_congr
+  intro r hr
+  apply sumRange_congr
+  intro q hq
+  rw [foldl_mul_eq]
+  congr 2
+  apply List.map_congr_left
+  intro d _
+  exact tmul_get _ _ _ _ _ _ hr hq
+
+theorem kruskal_innerprodK_rejects [Add α] [Mul α] [Zero α] (K L : Ktensor α) (hs : K.shape ≠ L.shape) :
+    K.innerprodK L = .error .reject := by
+  unfold Ktensor.innerprodK
+  have : (K.shape != L.shape) = true := by simp [hs]
+  rw [this]; rfl
+
+/-- **Kruskal norm**: the sum of the coefficient matrix `λλᵀ ∗ ⊛ₙ AₙᵀAₙ` is `Σ_k ⟦K⟧[k]²`. -/
+theorem kruskal_normSq_spec [CommSemiring α] (K : Ktensor α) : K.normSq = Spec.normSq K.den := by
+  show _ = Spec.inner K.den K.den
+  rw [spec_inner_kruskal K K rfl]
+  unfold Ktensor.normSq
+  simp only
+  apply sumRange_congr
+  intro r hr
+  apply sumRange_congr
+  intro q hq
+  rw [foldl_mul_eq (β := Mat α) K.factors (fun A => (A.tmul A K.ncomp K.ncomp).get r q),
+    map_eq_range_getD K.factors []]
+  congr 2
+  apply List.map_congr_left
+  intro d _
+  exact tmul_get _ _ _ _ _ _ hr hq
+
+/-! ### `mttkrp` -/
+
+theorem filter_mode_eq_fiber (s : List Nat) (n i : Nat) :
+    (allSubs s).filter (fun k => k.getD n 0 == i) = Spec.fiber s [n] [i] := by
+  unfold Spec.fiber
+  apply List.filter_congr
+  intro k _
+  exact (length_one_beq _ _).symm
+
+/-- What `mttkrp` of a Kruskal tensor is specified to be, computed. -/
+theorem spec_mttkrp_kruskal [CommSemiring α] (K : Ktensor α) (Uf : Nat → Nat → Nat → α) (lam : Nat → α)
+    (n i r : Nat) (hn : n < K.factors.length) (hi : i < (K.factors.getD n []).length) :
+    Spec.mttkrp K.den Uf lam n i r = lam r * sumRange K.ncomp fun r' => K.weights.getD r' 0 *
+      ((K.factors.getD n []).get i r' * ((others K.factors.length n).map fun m =>
+        sumRange (K.factors.getD m []).length fun x => (K.factors.getD m []).get x r' * Uf m x r).prod) := by
+  set N := K.factors.length with hN
+  have hp : isPermOf ([n] ++ others N n) N = true := isPermOf_mode_first N n hn
+  have hp' : isPermOf ([n] ++ others N n) K.shape.length = true := by rw [kshape_length]; exact hp
+  have hi' : InBounds (gather K.shape [n]) [i] := by
+    show InBounds [K.shape.getD n 0] [i]
+    exact ⟨by rw [kshape_getD]; exact hi, trivial⟩
+  show lam r * (((allSubs K.shape).filter fun k => k.getD n 0 == i).map fun k =>
+    K.get k * (((List.range K.shape.length).filter (· != n)).map fun m => Uf m (k.getD m 0) r).prod).sum = _
+  rw [filter_mode_eq_fiber, kshape_length, ← hN]
+  congr 1
+  have hterm : ∀ k ∈ Spec.fiber K.shape [n] [i],
+      K.get k * ((others N n).map fun m => Uf m (k.getD m 0) r).prod =
+      ((List.range K.ncomp).map fun r' => K.weights.getD r' 0 *
+        (([n].map fun d => (K.factors.getD d []).get (k.getD d 0) r').prod *
+         ((others N n).map fun d => (K.factors.getD d []).get (k.getD d 0) r' * Uf d (k.getD d 0) r).prod)).sum := by
+    intro k hk
+    have hkl : k.length = N := by rw [(mem_fiber.1 hk).1.length_eq, kshape_length]
+    unfold Ktensor.get
+    rw [← List.sum_map_mul_right]
+    apply sum_congr
+    intro r' _
+    rw [comp_eq_range K r' k hkl, prod_range_split N [n] (others N n) hp, List.prod_map_mul]
+    ring
+  show ((Spec.fiber K.shape [n] [i]).map fun k =>
+    K.get k * ((others N n).map fun m => Uf m (k.getD m 0) r).prod).sum = _
+  rw [List.map_congr_left hterm, sum_comm]
+  unfold sumRange
+  apply sum_congr
+  intro r' _
+  rw [List.sum_map_mul_left, fiber_sum_split K.shape [n] (others N n) [i] hp' hi'
+    (fun d x => (K.factors.getD d []).get x r') (fun d x => (K.factors.getD d []).get x r' * Uf d x r)]
+  congr 2
+  · simp
+  · congr 1
+    apply List.map_congr_left
+    intro d _
+    rw [kshape_getD]
+    rfl
+
+/-- The column count the `mttkrp` kernels read off the factor list. -/
+theorem mttkrp_R (fs : List (Mat α)) (n N R : Nat) (hN2 : 2 ≤ N) (hn : n < N)
+    (hcols : ∀ m, m < N → m ≠ n → ∀ row ∈ fs.getD m [], row.length = R)
+    (hpos : ∀ m, m < N → m ≠ n → 0 < (fs.getD m []).length) :
+    (if n == 0 then (fs.getD 1 []).ncols else (fs.getD 0 []).ncols) = R := by
+  by_cases h0 : n = 0
+  · subst h0
+    simp only [beq_self_eq_true, if_true]
+    exact ncols_eq _ R (hcols 1 (by omega) (by omega)) (hpos 1 (by omega) (by omega))
+  · have : (n == 0) = false := by simpa using h0
+    rw [this]
+    simp only [Bool.false_eq_true, if_false]
+    exact ncols_eq _ R (hcols 0 (by omega) (fun h => h0 h.symm)) (hpos 0 (by omega) (fun h => h0 h.symm))
+
+/-- **Kruskal `mttkrp`**, for the factor list `get_mttkrp_factors` hands on. -/
+theorem kruskal_mttkrp_fs [CommSemiring α] (K : Ktensor α) (Uop : KOperand α) (fs : List (Mat α)) (n R : Nat)
+    (hfs : getMttkrpFactors Uop n K.factors.length = .ok fs)
+    (hN2 : 2 ≤ K.factors.length) (hn : n < K.factors.length)
+    (hrows : ∀ m, m < K.factors.length → m ≠ n → (fs.getD m []).length = (K.factors.getD m []).length)
+    (hcols : ∀ m, m < K.factors.length → m ≠ n → ∀ row ∈ fs.getD m [], row.length = R)
+    (hpos : ∀ m, m < K.factors.length → m ≠ n → 0 < (K.factors.getD m []).length) :
+    ∃ V, K.mttkrp Uop n = .ok V ∧
+      ∀ i r, i < (K.factors.getD n []).length → r < R →
+        V.get i r = Spec.mttkrp K.den (fun m x c => (fs.getD m []).get x c) (fun _ => 1) n i r := by
+  set N := K.factors.length with hN
+  have hR := mttkrp_R fs n N R hN2 hn hcols (fun m hm hmn => by rw [hrows m hm hmn]; exact hpos m hm hmn)
+  have hguard : (List.range N).any (fun i => i != n &&
+      ((fs.getD i []).length != (K.factors.getD i []).length ||
+        !(fs.getD i []).isShape (fs.getD i []).length R)) = false := by
+    rw [List.any_eq_false]
+    intro m hm
+    have hm' := List.mem_range.1 hm
+    by_cases hmn : m = n
+    · simp [hmn]
+    · have h1 := hrows m hm' hmn
+      have h2 : (fs.getD m []).isShape (fs.getD m []).length R = true := by
+        unfold Mat.isShape
+        rw [Bool.and_eq_true]
+        refine ⟨by simp, ?_⟩
+        rw [List.all_eq_true]
+        intro row hrow
+        simpa using hcols m hm' hmn row hrow
+      have h3 : (m != n) = true := by simpa using hmn
+      rw [h3, h2, h1]; simp
+  refine ⟨(K.factors.getD n []).mulD ((List.range K.ncomp).map fun r' => (List.range R).map fun r =>
+      ((List.range N).filter (· != n)).foldl
+        (fun acc i => acc * ((K.factors.getD i []).tmul (fs.getD i []) K.ncomp R).get r' r) (K.weights.getD r' 0))
+      (K.factors.getD n []).length K.ncomp R, ?_, ?_⟩
+  · unfold Ktensor.mttkrp
+    simp only [← hN, hfs, hR]
+    rw [if_neg (by omega), if_neg (by omega), hguard]
+    simp only [Bool.false_eq_true, if_false]
+  · intro i r hi hr
+    rw [mulD_get _ _ _ _ _ _ _ hi hr, spec_mttkrp_kruskal K _ _ n i r hn hi, one_mul]
+    apply sumRange_congr
+    intro r' hr'
+    rw [get_tab _ _ _ _ _ hr' hr, foldl_mul_eq, ← hN]
+    rw [show ((List.range N).filter (· != n)) = others N n from rfl]
+    have : ((others N n).map fun i => ((K.factors.getD i []).tmul (fs.getD i []) K.ncomp R).get r' r) =
+        (others N n).map fun m => sumRange (K.factors.getD m []).length fun x =>
+          (K.factors.getD m []).get x r' * (fs.getD m []).get x r :=
+      List.map_congr_left (fun m _ => tmul_get _ _ _ _ _ _ hr' hr)
+    rw [this]
+    ring
+
+/-- **Kruskal `mttkrp` with a factor list.** -/
+theorem kruskal_mttkrp_list_spec [CommSemiring α] (K : Ktensor α) (U : List (Mat α)) (n R : Nat)
+    (hN2 : 2 ≤ K.factors.length) (hn : n < K.factors.length) (hlen : U.length = K.factors.length)
+    (hrows : ∀ m, m < K.factors.length → m ≠ n → (U.getD m []).length = (K.factors.getD m []).length)
+    (hcols : ∀ m, m < K.factors.length → m ≠ n → ∀ row ∈ U.getD m [], row.length = R)
+    (hpos : ∀ m, m < K.factors.length → m ≠ n → 0 < (K.factors.getD m []).length) :
+    ∃ V, K.mttkrp (.list U) n = .ok V ∧
+      ∀ i r, i < (K.factors.getD n []).length → r < R →
+        V.get i r = Spec.mttkrp K.den (fun m x c => (U.getD m []).get x c) (fun _ => 1) n i r := by
+  apply kruskal_mttkrp_fs K (.list U) U n R ?_ hN2 hn hrows hcols hpos
+  unfold getMttkrpFactors
+  simp [hlen]
+
+/-- What `get_mttkrp_factors` returns for a Kruskal operand, and why that is the right thing: the
+specification with the returned list and unit weights is the specification with the operand's
+factors and weights. -/
+theorem getMttkrpFactors_kruskal [CommSemiring α] (L : Ktensor α) (n N R : Nat) (hN2 : 2 ≤ N) (hn : n < N)
+    (hlen : L.factors.length = N) (hw : L.weights.length = R) :
+    ∃ fs, getMttkrpFactors (.kruskal L) n N = .ok fs ∧
+      (∀ m, m < N → (fs.getD m []).length = (L.factors.getD m []).length) ∧
+      (∀ m, m < N → (∀ row ∈ L.factors.getD m [], row.length = R) → ∀ row ∈ fs.getD m [], row.length = R) ∧
+      ∀ X : Den α, X.shape.length = N → ∀ i r,
+        Spec.mttkrp X (fun m x c => (fs.getD m []).get x c) (fun _ => 1) n i r =
+          Spec.mttkrp X (fun m x c => (L.factors.getD m []).get x c) (fun r => L.weights.getD r 0) n i r := by
+  set mm := (if n == 0 then 1 else 0) with hmmdef
+  have hmmN : mm < N := by rw [hmmdef]; split <;> omega
+  have hmmn : mm ≠ n := by
+    rw [hmmdef]
+    by_cases h0 : n = 0
+    · subst h0; simp
+    · have : (n == 0) = false := by simpa using h0
+      rw [this]; simp only [Bool.false_eq_true, if_false]; exact fun h => h0 h.symm
+  set U' := absorbWeights L.weights L.factors n with hU'
+  have hU'len : U'.length = N := by simp [hU', absorbWeights, hlen]
+  have hU'get : ∀ m, m < N → U'.getD m [] =
+      if m = mm then (L.factors.getD m []).map (fun row => List.zipWith (· * ·) row L.weights)
+      else L.factors.getD m [] := fun m hm => absorbWeights_getD L.weights L.factors n m (by rw [hlen]; exact hm)
+  have hgmf : getMttkrpFactors (.kruskal L) n N = .ok U' := by
+    unfold getMttkrpFactors
+    simp only [← hmmdef, ← hU']
+    have h1 : ¬ (mm ≥ L.factors.length) := by rw [hlen]; omega
+    have h2 : (U'.length != N) = false := by rw [hU'len]; exact bne_self_eq_false _
+    simp [h1, h2]
+  refine ⟨U', hgmf, ?_, ?_, ?_⟩
+  · intro m hm
+    rw [hU'get m hm]
+    split
+    · rw [List.length_map]
+    · rfl
+  · intro m hm hc row hrow
+    rw [hU'get m hm] at hrow
+    split at hrow
+    · obtain ⟨row', hr', rfl⟩ := List.mem_map.1 hrow
+      rw [List.length_zipWith, hc row' hr', hw, Nat.min_self]
+    · exact hc row hrow
+  · intro X hX i r
+    rw [← spec_mttkrp_absorb X (fun m x c => (L.factors.getD m []).get x c)
+      (fun r => L.weights.getD r 0) n mm i r (by rw [hX]; exact hmmN) hmmn]
+    unfold Spec.mttkrp Spec.sumOver
+    congr 1
+    apply sum_congr
+    intro k _
+    congr 2
+    apply List.map_congr_left
+    intro m hm
+    have hm' : m < N := by rw [← hX]; exact List.mem_range.1 (List.mem_filter.1 hm).1
+    simp only
+    rw [hU'get m hm']
+    by_cases h : m = mm
+    · rw [if_pos h, if_pos h, get_scaled_rows]
+    · rw [if_neg h, if_neg h]
+
+/-- **Kruskal `mttkrp` with a Kruskal operand** (its weights scale the columns). -/
+theorem kruskal_mttkrp_kruskal_spec [CommSemiring α] (K L : Ktensor α) (n R : Nat)
+    (hN2 : 2 ≤ K.factors.length) (hn : n < K.factors.length) (hlen : L.factors.length = K.factors.length)
+    (hw : L.weights.length = R)
+    (hrows : ∀ m, m < K.factors.length → m ≠ n → (L.factors.getD m []).length = (K.factors.getD m []).length)
+    (hcols : ∀ m, m < K.factors.length → m ≠ n → ∀ row ∈ L.factors.getD m [], row.length = R)
+    (hpos : ∀ m, m < K.factors.length → m ≠ n → 0 < (K.factors.getD m []).length) :
+    ∃ V, K.mttkrp (.kruskal L) n = .ok V ∧
+      ∀ i r, i < (K.factors.getD n []).length → r < R →
+        V.get i r = Spec.mttkrp K.den (fun m x c => (L.factors.getD m []).get x c)
+          (fun r => L.weights.getD r 0) n i r := by
+  obtain ⟨fs, hfs, f1, f2, f3⟩ := getMttkrpFactors_kruskal L n K.factors.length R hN2 hn hlen hw
+  obtain ⟨V, hV, hval⟩ := kruskal_mttkrp_fs K (.kruskal L) fs n R hfs hN2 hn
+    (fun m hm hmn => by rw [f1 m hm]; exact hrows m hm hmn)
+    (fun m hm hmn => f2 m hm (hcols m hm hmn)) hpos
+  refine ⟨V, hV, ?_⟩
+  intro i r hi hr
+  rw [hval i r hi hr, f3 K.den (kshape_length K) i r]
+
 end MLK
 end Pyttb
